@@ -205,6 +205,39 @@ def main(tier, seed, replay=None):
     finally:
         alive = server.is_alive()
         server.terminate(force=True)
+    # a server started the way the command line starts it (close_on_none: a None HEADER is the shutdown command): a client
+    # that merely connects and goes away - at offset 0 or inside the header - has sent no such command
+    try:
+        from pyworkers.remote_server import spawn_server
+        s2 = spawn_server(('127.0.0.1', 0), close_on_none=True)
+        try:
+            h2 = PersistentRemoteWorker(st.sq3, host=s2.addr)
+            h2.enqueue(2)
+            ok0 = bounded(lambda: h2.next_result(block=True), 10) == ('ok', 8)
+            for off, end in ((0, 'fin'), (0, 'rst'), (1, 'fin'), (3, 'fin'), (4, 'fin')):
+                st.raw_session(s2.addr, streams['worker'][0][:off], end=end)
+                time.sleep(0.15)
+                okh = False
+                for _ in range(20):
+                    if st.health(s2.addr):
+                        okh = True
+                        break
+                    time.sleep(0.05)
+                res.count('close_on_none-server'); res.case(('close_on_none', off, end), nontrivial=True)
+                if not okh or not s2.is_alive():
+                    res.violation(dict(server='close_on_none', request='worker', cut=off, end=end),
+                                  f'a server running with close_on_none stopped serving after a client vanished {off} byte(s) into the header ({end}); process alive: {s2.is_alive()}')
+                    break
+            else:
+                def ask2():
+                    h2.enqueue(3)
+                    return h2.next_result(block=True)
+                if ok0 and bounded(ask2, 10) != ('ok', 27):
+                    res.violation(dict(server='close_on_none', healthy_client='persistent worker'), 'the healthy client\'s worker on the close_on_none server was disturbed by vanishing clients')
+        finally:
+            s2.terminate(force=True)
+    except Exception as e:   # noqa
+        res.tie('harness:close_on_none-server', repr(e))
     term = f'check_sessions [{"; ".join(sessions)}] [{"; ".join(replies)}] {"true" if alive else "false"} []'
     bad, err = core.coq_eval_cases(PROP, HEADER, [term], per_file=5)
     res.traces_validated = len(sessions) if not bad and not err else 0
